@@ -148,6 +148,10 @@ func TestVerifC05(t *testing.T) {
 		if strings.HasPrefix(host, "127.0.0.9:") {
 			return &sim.Plan{StallStage: "pre-handshake", HoldMax: 40 * time.Second}
 		}
+		// host 127.0.0.10 completes the handshake and then never reads a byte
+		if strings.HasPrefix(host, "127.0.0.10:") {
+			return &sim.Plan{StallStage: "no-read", HoldMax: 40 * time.Second}
+		}
 		return nil
 	})
 	caseNo := 0
@@ -243,6 +247,40 @@ func TestVerifC05(t *testing.T) {
 				c.Violation("fault:partial-data-with-error", fmt.Sprintf("%+v: error %v came with a document", f, o.err), d)
 			}
 			c.Count("errors_seen", 1)
+		}
+	}
+	// ---------- Part 0: complete responses with unusual framing headers ----------
+	// Nothing is cut here; the headers merely claim lengths and encodings that a client reading an HTTP/1.0 response to its end
+	// may use or ignore. Whatever it does with them, the outcome is the whole document or an error - no crash, hang or partial data.
+	for hi, hdr := range []string{
+		"Content-Length: %d\r\n", "Content-Length: 0\r\n", "Content-Length: 1\r\n", "Content-Length: 9000000000000000000\r\n", "Content-Length: 9223372036854775807\r\n",
+		"Content-Length: 9223372036854775808\r\n", "Content-Length: 18446744073709551615\r\n", "Content-Length: 18446744073709551616\r\n", "Content-Length: 99999999999999999999999999\r\n",
+		"Content-Length: -1\r\n", "Content-Length: -9223372036854775808\r\n", "Content-Length: abc\r\n", "Content-Length: \r\n", "Content-Length: 4294967296\r\n", "Content-Length: 2147483648\r\n",
+		"Content-Length: 1e3\r\n", "Content-Length: 0x10\r\n", "Content-Length: +5\r\n", "Content-Length: %d\r\nContent-Length: 9000000000000000000\r\n", "content-length:9000000000000000000\r\n",
+		"Content-Range: bytes 0-9000000000000000000/9000000000000000001\r\n", "Connection: keep-alive\r\nKeep-Alive: timeout=9000000000000000000\r\n", "Content-Encoding: identity\r\n", "Retry-After: 9000000000000000000\r\n",
+		"Age: -1\r\n", "Expires: 0\r\n",
+	} {
+		for _, via := range []string{"client.FetchURL", "pub.New"} {
+			n := caseNo
+			caseNo++
+			if !c.Mine(n) {
+				continue
+			}
+			if strings.Contains(hdr, "%d") {
+				hdr = strings.Replace(hdr, "%d", fmt.Sprint(len(noteBody)), 1)
+			}
+			if !c.Begin(n, fmt.Sprintf("complete response with %q via %s", hdr, via)) {
+				continue
+			}
+			ch := chain{fmt.Sprintf("framing-%02d", hi), []func(string) hop{final("HTTP/1.1 200 OK\r\n", ct+hdr, noteBody, "")}}
+			if hi%3 == 1 {
+				ch = chain{fmt.Sprintf("framing-%02d", hi), []func(string) hop{redirect("HTTP/1.1 302 Found\r\n", hdr, ""), final("HTTP/1.1 200 OK\r\n", hdr+ct, noteBody, "")}}
+			}
+			start, hops := install(ch, -1, nil)
+			o := fetch(start, via, hops)
+			judge(fault{Chain: ch.name, Kind: "framing-header", Via: via, At: -1}, o, hops, true, noteBody)
+			c.Count("framing_header_cases", 1)
+			c.Nontrivial(fmt.Sprintf("framing|%s|%s", hdr, via))
 		}
 	}
 	// ---------- Part 1: every cut point x close style x hop ----------
@@ -378,6 +416,11 @@ func TestVerifC05(t *testing.T) {
 		url  func() string
 	}{
 		{"pre-handshake-stall", func() string { return fmt.Sprintf("https://127.0.0.9:%d/never-%d-%d", s.Port, c.R.Shard, caseNo) }},
+		{"peer-never-reads-small-request", func() string { return fmt.Sprintf("https://127.0.0.10:%d/noread-%d-%d", s.Port, c.R.Shard, caseNo) }},
+		// a request larger than the socket buffers: the client's write itself blocks
+		{"peer-never-reads-16MB-request", func() string {
+			return fmt.Sprintf("https://127.0.0.10:%d/noread-%d-%d?pad=%s", s.Port, c.R.Shard, caseNo, strings.Repeat("p", 16<<20))
+		}},
 		{"refused", func() string {
 			l, _ := net.Listen("tcp4", "127.0.0.1:0")
 			p := l.Addr().(*net.TCPAddr).Port
